@@ -1,7 +1,6 @@
 package main
 
 import (
-	"bytes"
 	"sync"
 
 	"github.com/koykov/dyntpl"
@@ -71,7 +70,15 @@ func init() {
 		if !ok {
 			return errVFail
 		}
-		ctx.BufModOut(buf, bytes.ToUpper(t))
+		// ASCII letters only, byte by byte (the definition of n_vup in Model/Interp.v)
+		up := make([]byte, len(t))
+		for i, c := range t {
+			if c >= 'a' && c <= 'z' {
+				c -= 32
+			}
+			up[i] = c
+		}
+		ctx.BufModOut(buf, up)
 		return nil
 	})
 	dyntpl.RegisterModFn("vcat", "", func(ctx *dyntpl.Ctx, buf *any, val any, args []any) error {
